@@ -32,6 +32,35 @@ FUNCS = {
 }
 
 
+def comprehension_only(fn):
+    """names whose only binding sites are comprehension targets: a comprehension is a scope of its own (since Python 3.12
+    symtable lists them among the locals of the enclosing function because comprehensions are inlined - an
+    implementation detail, the names are still invisible outside the comprehension)"""
+    import ast
+    import textwrap
+    tree = ast.parse(textwrap.dedent(inspect.getsource(fn))).body[0]
+    comp, other = set(), set()
+    comps = (ast.ListComp, ast.SetComp, ast.DictComp, ast.GeneratorExp)
+
+    def walk(node, inside):
+        for ch in ast.iter_child_nodes(node):
+            if isinstance(ch, ast.comprehension):
+                for n in ast.walk(ch.target):
+                    if isinstance(n, ast.Name):
+                        comp.add(n.id)
+                walk(ch.iter, inside)
+                for c in ch.ifs:
+                    walk(c, True)
+                continue
+            if isinstance(ch, ast.Name) and isinstance(ch.ctx, ast.Store) and not inside:
+                other.add(ch.id)
+            if isinstance(ch, ast.arg) and not inside:
+                other.add(ch.arg)
+            walk(ch, inside or isinstance(ch, comps))
+    walk(tree, False)
+    return comp - other
+
+
 def plainly_assigned(fn):
     """names bound by an assignment / loop / with / import in the function's own body (not only by def or class)"""
     import ast
@@ -111,6 +140,10 @@ def main():
                     nested.add(s.get_name())
         env = {fname: fn}
         plain_names = plainly_assigned(fn)
+        for n in comprehension_only(fn):
+            if fx.get(n) == "local":
+                del fx[n]
+                nested.add(n)
         idents = [(n, k) for n, k in fx.items()] + [(n, "absent") for n in FRESH] + [(n, "absent") for n in sorted(nested)] \
             + [(n, "meta-ok") for n in METAS_OK] + [(n, "meta-bad") for n in METAS_BAD]
         for ident, kind in idents:
